@@ -130,7 +130,7 @@ RECURSIVE ProdSeq(_, _)
 ProdSeq(I, s) ==      \* all assignments of students s..ns, as a sequence in product order
     IF s > I.ns THEN << <<>> >>
     ELSE LET rest == ProdSeq(I, s + 1)
-         IN  FlattenSeq([c \in 1 .. I.np + 1 |-> [i \in DOMAIN rest |-> <<c - 1>> \o rest[i]]])
+         IN  Concat([c \in 1 .. I.np + 1 |-> [i \in DOMAIN rest |-> <<c - 1>> \o rest[i]]])
 
 PairLess(a, b) == a[1] < b[1] \/ (a[1] = b[1] /\ a[2] < b[2])
 ZeroProfile(I) == [r \in 1 .. MaxRank(I) |-> 0]
